@@ -535,7 +535,14 @@ def c33(idx: Index, rep: Report, tier: str) -> None:
     rep.require_min(rule_b, "decisions", 5)
 
 
-EXTRA3 = {"C33": c33, "C31": c31, "C17": c17, "C25": c25, "C20": c20, "C27": c27, "C28": c28}
+# ------------------------------------------------------------------------------------ C32
+def c32(idx: Index, rep: Report, tier: str) -> None:
+    from .C09 import factory_threads_kind
+
+    factory_threads_kind(idx, rep, "C32.5 def-use pipeline-stage-selected-for-the-running-kind")
+
+
+EXTRA3 = {"C32": c32, "C33": c33, "C31": c31, "C17": c17, "C25": c25, "C20": c20, "C27": c27, "C28": c28}
 
 
 def run_extra3(prop: str, idx: Index, rep: Report, tier: str) -> None:
